@@ -16,9 +16,11 @@ expression `WildcardMatch` builds), pinned by `resolve_order_in_source` below.
 namespace Props.C15
 open TaskModel.Resolve
 
-/-- A decomposition of `s` along the segments of a pattern. -/
+/-- A decomposition of `s` along the segments of a pattern: one value per `*`, and the
+segments and values spell `s`.  The values are ARBITRARY strings (any character, the
+newline included: only `*` is special). -/
 def Decomp (rest : List Str) (seg0 : Str) (ws : List Str) (s : Str) : Prop :=
-  ws.length = rest.length ∧ s = seg0 ++ spellRest rest ws ∧ ∀ w ∈ ws, NoNl w
+  ws.length = rest.length ∧ s = seg0 ++ spellRest rest ws
 
 /-- **Soundness of `.MATCH`**: whatever the matcher returns spells the requested name
 exactly — pattern segments literally, wildcard values in between, one per `*`. -/
@@ -29,27 +31,84 @@ theorem C15_match_sound (seg0 : Str) (rest : List Str) (s : Str) (ws : List Str)
   · rename_i hp
     obtain ⟨t, rfl⟩ := (isPrefix_iff _ _).mp hp
     rw [drop_of_prefix] at h
-    obtain ⟨h1, h2, h3⟩ := matchRest_sound _ _ _ h
-    exact ⟨h1, by rw [h2], h3⟩
+    obtain ⟨h1, h2⟩ := matchRest_sound _ _ _ h
+    exact ⟨h1, by rw [h2]⟩
   · cases h
 
-/-- **Completeness**: every name that can be spelled from the pattern matches. -/
-theorem C15_match_complete (seg0 : Str) (rest ws : List Str)
-    (hl : ws.length = rest.length) (hn : ∀ w ∈ ws, NoNl w) :
+/-- **Completeness**: every name that can be spelled from the pattern matches — for ALL
+strings as wildcard values (since the `(?s)` fix; before it a value containing a newline
+never matched: `C15_old_rule_newline_counterexample`). -/
+theorem C15_match_complete (seg0 : Str) (rest ws : List Str) (hl : ws.length = rest.length) :
     (matchSegs (seg0 :: rest) (seg0 ++ spellRest rest ws)).isSome = true := by
   simp only [matchSegs]
   rw [if_pos ((isPrefix_iff _ _).mpr ⟨_, rfl⟩), drop_of_prefix]
-  exact matchRest_complete rest ws hl hn
+  exact matchRest_complete rest ws hl
 
-/-- **Greedy**: the first wildcard value returned is at least as long as in any other
-way of spelling the name (leftmost-longest, as Go's regexp does for `(.*)`). -/
-theorem C15_match_greedy (seg0 seg : Str) (more : List Str) (w : Str) (ws : List Str)
-    (hl : ws.length = more.length) (hn : ∀ x ∈ (w :: ws), NoNl x) :
+/-- soundness and completeness together: the names a pattern matches are EXACTLY the names
+it spells -/
+theorem C15_match_iff (seg0 : Str) (rest : List Str) (s : Str) :
+    (matchSegs (seg0 :: rest) s).isSome = true ↔ ∃ ws, Decomp rest seg0 ws s := by
+  constructor
+  · intro h
+    obtain ⟨ws, hws⟩ := Option.isSome_iff_exists.mp h
+    exact ⟨ws, C15_match_sound _ _ _ _ hws⟩
+  · rintro ⟨ws, hl, rfl⟩
+    exact C15_match_complete _ _ _ hl
+
+/-- **Greedy, every group**: among all ways of spelling the name from the pattern, the
+matcher returns the one whose first wildcard value is longest; among those, the one whose
+second value is longest; and so on (`lexLenLe ws' ws`: at the first position where the
+lengths differ, the returned value is the longer one) — leftmost-longest, as Go's regexp
+does for `(.*)`. -/
+theorem C15_match_greedy (seg0 : Str) (rest : List Str) (s : Str) (ws : List Str)
+    (h : matchSegs (seg0 :: rest) s = some ws) (ws' : List Str) (hd : Decomp rest seg0 ws' s) :
+    lexLenLe ws' ws := by
+  simp only [matchSegs] at h
+  split at h
+  · obtain ⟨hl, hs⟩ := hd
+    subst hs
+    rw [drop_of_prefix] at h
+    exact matchRest_greedy_all _ _ _ h ws' hl rfl
+  · cases h
+
+/-- the first-group corollary in the form of earlier versions -/
+theorem C15_match_greedy_first (seg0 seg : Str) (more : List Str) (w : Str) (ws : List Str)
+    (hl : ws.length = more.length) :
     ∃ w' ws', matchSegs (seg0 :: seg :: more) (seg0 ++ spellRest (seg :: more) (w :: ws))
         = some (w' :: ws') ∧ w.length ≤ w'.length := by
   simp only [matchSegs]
   rw [if_pos ((isPrefix_iff _ _).mpr ⟨_, rfl⟩), drop_of_prefix]
-  exact matchRest_greedy seg more w ws hl hn
+  exact matchRest_greedy seg more w ws hl
+
+/-- non-vacuity: `s*-*` on `sa-b-c`: the other decomposition `[a, b-c]` is below the returned
+`[a-b, c]`; a value with a newline is matched like any other -/
+example : wildcardMatch ['s','*','-','*'] ['s','a','-','b','-','c'] = some [['a','-','b'],['c']]
+    ∧ lexLenLe [['a'],['b','-','c']] [['a','-','b'],['c']] := by
+  refine ⟨by decide, ?_⟩; simp [lexLenLe]
+example : wildcardMatch ['x','-','*'] ['x','-','a','\n','b'] = some [['a','\n','b']] := by decide
+
+/-! ### Historical: the rule before the `(?s)` fix — `.` did not match a newline -/
+
+/-- length of the longest prefix without a newline (what one `(.*)` could take at most) -/
+def nlFree : Str → Nat
+  | [] => 0
+  | c :: cs => if c = '\n' then 0 else nlFree cs + 1
+
+def matchRestOld : List Str → Str → Option (List Str)
+  | [], s => if s = [] then some [] else none
+  | seg :: more, s => tryK seg (matchRestOld more) s (nlFree s)
+
+def wildcardMatchOld (pat name : Str) : Option (List Str) :=
+  match splitOn '*' pat with
+  | [] => none
+  | seg0 :: rest => if isPrefix seg0 name then matchRestOld rest (name.drop seg0.length) else none
+
+/-- the old rule: the task `x-*` did not answer to the name `x-a⏎b` although the name is
+spelled by the pattern (completeness was false for values with a newline) -/
+theorem C15_old_rule_newline_counterexample :
+    wildcardMatchOld ['x','-','*'] ['x','-','a','\n','b'] = none
+    ∧ Decomp [[]] ['x','-'] [['a','\n','b']] ['x','-','a','\n','b'] := by
+  refine ⟨by decide, by simp [Decomp, spellRest]⟩
 
 /-- **Every character other than `*` is literal**: a pattern without `*` matches exactly
 itself. -/
@@ -332,7 +391,8 @@ than one aliased task is the conflict error, none the not-found error.
 `FindMatchingTasks` tries the exact name (`Tasks.Get`) and returns at once on a hit, then
 ranges over the table in its own order (`All(nil)`: no sorter) collecting `WildcardMatch`es.
 `WildcardMatch` anchors the quoted name with `*` (and only `*`) turned into a capture group
-and demands as many groups as the name has stars.  This is the order `Resolve.resolve`
+(under the flag `s`: the dot of `(.*)` matches the newline too) and demands as many groups as the
+name has stars.  This is the order `Resolve.resolve`
 implements (`findExact`, `findWild`, `findAliases`). -/
 theorem resolve_order_in_source :
     TaskModel.Gen.ResolveOrder.getTask =
@@ -342,7 +402,7 @@ theorem resolve_order_in_source :
     TaskModel.Gen.ResolveOrder.findMatchingTasks =
       ["return:nil", "call:Tasks.Get", "return", "range:All(nil)", "call:WildcardMatch", "return"] ∧
     TaskModel.Gen.ResolveOrder.wildcardRegexp =
-      "fmt.Sprintf(\"^%s$\", strings.ReplaceAll(regexp.QuoteMeta(‹name›), `\\*`, \"(.*)\"))" ∧
+      "fmt.Sprintf(\"(?s)^%s$\", strings.ReplaceAll(regexp.QuoteMeta(‹name›), `\\*`, \"(.*)\"))" ∧
     TaskModel.Gen.ResolveOrder.wildcardMatch = ["if:len==0", "return", "if:len!=wildcardCount", "return", "return"] := by
   decide
 
